@@ -110,6 +110,15 @@ func encodeFunction(w *World, fn *ssa.Function, dropped map[string]bool) (e *Enc
 			}
 		}
 	}
+	if ct != nil && len(fr.rets) > 0 {
+		for _, p := range ct.Props {
+			if p == "C17" {
+				e.guard = reach
+				e.cur = stOut
+				e.niObligations(fr, ct, rv, stOut, reach)
+			}
+		}
+	}
 	e.retVals = rv
 	return e, nil
 }
@@ -119,6 +128,7 @@ func (e *Encoder) query(o *Obligation, values []*Term) string {
 	c := e.c
 	var as []*Term
 	as = append(as, e.assumptions[:o.NAssume]...)
+	as = append(as, o.Extra...)
 	as = append(as, o.Guard, c.Not(o.Goal))
 	return c.Script(as, values, "")
 }
@@ -207,7 +217,7 @@ func (e *Encoder) relevantQuery(o *Obligation) (string, bool) {
 			}
 		}
 	}
-	if cnt == n {
+	if cnt == n || len(o.Extra) > 0 {
 		return "", false
 	}
 	var as []*Term
@@ -390,6 +400,9 @@ func printFnResult(r *FnResult, verbose bool) {
 			continue
 		}
 		fmt.Printf("    FAIL %-9s %s  (%s) %s:%d\n", or.Status, or.O.ID, or.O.Desc, shortPath(or.O.Pos.Filename), or.O.Pos.Line)
+		if showModels && or.Status == "refuted" {
+			debugModel(r.Enc, or.O)
+		}
 		if or.Status == "undecided" {
 			fmt.Printf("         %s %v\n", firstLine(or.Res.Output), or.Res.All)
 		}
@@ -455,3 +468,40 @@ func (e *Encoder) seedFromInit(fn *ssa.Function, st *State) *State {
 }
 
 var debugTiming = os.Getenv("BMCVC_TIMING") != ""
+var showModels = os.Getenv("BMCVC_MODEL") != ""
+
+// debugModel prints the values of all scalar symbols in a refuted obligation's query.
+func debugModel(e *Encoder, o *Obligation) {
+	c := e.c
+	as := append([]*Term{}, e.assumptions[:o.NAssume]...)
+	as = append(as, o.Extra...)
+	as = append(as, o.Guard, c.Not(o.Goal))
+	seen := map[*Term]bool{}
+	var syms []*Term
+	var rec func(t *Term)
+	rec = func(t *Term) {
+		if seen[t] {
+			return
+		}
+		seen[t] = true
+		if t.Op == "sym" && (t.S.K == SBV || t.S.K == SBool || t.S.K == SInt || t.S.K == SRef) {
+			syms = append(syms, t)
+		}
+		for _, a := range t.Args {
+			rec(a)
+		}
+	}
+	for _, a := range as {
+		rec(a)
+	}
+	sort.Slice(syms, func(i, j int) bool { return syms[i].Name < syms[j].Name })
+	res := Solve("dbg_"+o.ID, c.Script(as, syms, ""), 20*time.Second, false)
+	vals := parseValues(res.Output, len(syms))
+	if vals == nil {
+		fmt.Println("      (no model)", res.Status)
+		return
+	}
+	for i, s := range syms {
+		fmt.Printf("      %s = %s\n", s.Name, vals[i].String())
+	}
+}
